@@ -278,13 +278,15 @@ def conc(m, v, keys_as_refs=True):
         n = ev(v.n).as_long()
         return [conc(m, x) for x in v.items[:n]]
     if isinstance(v, SSet):
-        return set(conc(m, x) for x in v.items)
+        return set(conc(m, x) for g, x in zip(v.guards, v.items) if (g is True or z3.is_true(ev(zb(g)))))
     if isinstance(v, SBytes):
         if v.kind == 'raw':
             n = ev(v.n).as_long()
             return bytes(ev(b).as_long() for b in v.bs[:n])
         if v.kind == 'hex':
             return bytes.fromhex(conc(m, v.src))
+        if v.kind == 'keyraw':
+            return (b'%032d' % (ev(v.kid).as_long() % 10 ** 32))[-32:]
         raise ValueError('conc bytes kind ' + v.kind)
     if isinstance(v, Opaque):
         if v.what == 'payload':
